@@ -165,8 +165,8 @@ def check(w, tier, t0):
     events = replay_scheds(vh, d, "A", scheds)
     # 3. direction B: storms in separate processes (a fatal concurrent-map error ends one)
     nproc = 8
-    per = 60 if quick else 1500
-    rper = 25 if quick else 400
+    per = 400 if quick else 1500
+    rper = 160 if quick else 400
     jobs = [(vh, "B%d" % j, per, sd * 100 + j, 8 if j % 2 else 32, False) for j in range(nproc)] + \
            [(vhr, "R%d" % j, rper, sd * 100 + 50 + j, 8 if j % 2 else 16, True) for j in range(nproc)]
     conc, races, crashes, unresolved = [], [], [], 0
